@@ -9,7 +9,7 @@ opts (all optional):
   resume_from: k -> simulate(max_time=k) first, the observed run resumes it (state/log initialisation off, or restart_flags=(state, log));
   build_from + edit: objects built from spec `build_from`, run `presim` times, then edited in place (mc/edits.py) into `spec`;
   post_insert: list -> insert_absence_time_list(list) after the run; post_remove: remove_absence_time_list() after the run ("after-insert": after the post_insert); post_reverse: n calls of project.reverse_log_information() after the run; reload: write/read JSON after the run and look at the loaded project;
-  unit_time: passed to simulate(); backward: observe backward_simulate() instead (options due, rev);
+  absence_as: "float" / "numpy" -> the project-wide list is handed over as floats / numpy integers of the same values; unit_time: passed to simulate(); backward: observe backward_simulate() instead (options due, rev);
   flags: (state, log) initialisation flags of the observed call on a never-simulated model; error_tol: passed to simulate();
   presim_back: number of earlier backward_simulate() calls on the same object (presim_back_rev=False: with reverse_log_information=False);
   presim_queries: after the earlier runs all read-only helpers (get_*_list, extract_*, chart/network data, print_*) are called once;
@@ -82,6 +82,12 @@ def sim_kwargs(opts):
         perform_auto_task_while_absence_time=bool(opts.get("auto_abs", False)),
         max_time=opts.get("max_time", 200),
     )
+    if opts.get("absence_as") == "float":
+        kw["absence_time_list"] = [float(a) for a in kw["absence_time_list"]]  # step numbers written as floats (2.0 == 2)
+    elif opts.get("absence_as") == "numpy":
+        import numpy
+
+        kw["absence_time_list"] = [numpy.int64(a) for a in kw["absence_time_list"]]  # a calendar computed with numpy
     if opts.get("unit_time") is not None:
         kw["unit_time"] = opts["unit_time"]
     if opts.get("error_tol") is not None:
